@@ -23,6 +23,7 @@ import RosedVerif.Model.GenEq.Commit
 import RosedVerif.Model.GenEq.Edit
 import RosedVerif.Model.GenEq.Apply
 import RosedVerif.Model.GenEq.Paras
+import RosedVerif.Model.GenEq.AffixPlaceholder
 import RosedVerif.Model.GenEq.WrapOpts
 import RosedVerif.Model.GenEq.IndentOpts
 import RosedVerif.Model.GenEq.InsertTable
